@@ -179,7 +179,14 @@ fn judge(c: &mut Case<'_>, st: &Stage, before: &Snapshot, attempt: &Attempt, new
         let what = if got.as_deref() == Some(new_content) { "the new content is visible".to_owned() } else { format!("reads back {:?} bytes", got.as_ref().map(Vec::len)) };
         return Err(c.fail(fault_sig, format!("{fault_name}: the write did not succeed (response {:?}) but {what}; previous state: {:?} bytes", attempt.response.as_ref().map(|r| r.as_ref().map(|w| w.status)), st.previous.as_ref().map(Vec::len))));
     }
-    let changes = changed_paths(before, &after);
+    let mut changes = changed_paths(before, &after);
+    // an empty directory the commit step created on the way (request abandoned between `create_dir_all` and the rename)
+    // is neither a temporary file nor visible through any S3 operation: don't-care, counted
+    let n_all = changes.len();
+    changes.retain(|(p, how)| !(*how == "created" && std::fs::metadata(st.env.sandbox.join(p)).is_ok_and(|m| m.is_dir())));
+    if changes.len() < n_all {
+        c.label("dc:empty-directory-left");
+    }
     if !changes.is_empty() {
         let leftover_only = changes.iter().all(|(_, how)| *how == "created");
         // an abandoned request that left an *empty* file went away before the first body byte was written (the listed
